@@ -106,6 +106,8 @@ func (e *kvElection) checkKeyAndReelect(ctx context.Context) {
 	if e.IsLeader() {
 		return
 	}
+	// gofail: var verifPeriodicAfterLeaderTest struct{}
+	// verifYield("periodicAfterLeaderTest")
 
 	entry, err := e.kv.Get(e.key)
 	if err != nil {
@@ -225,6 +227,8 @@ func (e *kvElection) handleWatchEvent(entry Entry) {
 	}
 
 	currentLeaderID := e.LeaderID()
+	// gofail: var verifWatchAfterLeaderTest struct{}
+	// verifYield("watchAfterLeaderTest")
 	if currentLeaderID != newLeaderID {
 		log := e.getLogger()
 		log.Info("leader_changed",
